@@ -32,7 +32,7 @@ T = {
  'C10': ('E1', '4/C10', 'exhaustive enumeration of potential x parameters x grids x sigma placements (every on-grid sigma) x diameter pairs on the real classes; documented u(r) re-implemented',
          'Every potential class is evaluated for every element of the product and compared with the documented form including the contact rule.', 'documented forms'),
  'C11': ('E1', '4/C11', 'exhaustive enumeration of model x N x geometry x k alphabets (decades and every k of a set of Domains) on the real omega classes; explicit pair sums',
-         'Every omega model is evaluated for every element of the product and compared with an explicit loop over separations, limits and bounds.', 'DiscreteKoyama kernel moments only partially independent (see DESIGN)'),
+         'Every omega model is evaluated for every element of the product and compared with an explicit loop over separations, limits and bounds.', 'DiscreteKoyama moments from an independent moment propagation of the bond-angle model (refmodel/chains.py); NFJC reference by Gauss-Legendre over the exact Rayleigh-Treloar density'),
  'C12': ('E1', '4/C12', 'exhaustive enumeration of source layouts x length relations x single-point k perturbations x Domains on the real FromArray/FromFile/PRISM code; bit-identity or mandatory exception',
          'Every combination is executed; matching data must come back bit-for-bit, mismatching data must raise before a cost evaluation is possible.', 'numpy.allclose semantics'),
  'C13': ('E1+E2', '4/C13', 'exhaustive operator matrix (rank x length x operator x operand kind x in/out of place x 3x3 space flags) and all in-place sequences to depth 3 on the real MatrixArray; per-matrix numpy reference',
